@@ -106,6 +106,29 @@ def union_round(u):
     return rec
 
 
+def alloc_record(u, rounds=8):
+    """How many proposals each member is asked for in `rounds` successive refills of the same union, observed at
+    the members themselves (independent of how the allocation is computed).  RoundTrace: RD_AllocationRandom."""
+    reqs = []
+    for b in u.bounds:
+        def wrap(n, _o=b.sample):
+            reqs.append(int(n))
+            return _o(n)
+        b.sample = wrap
+    try:
+        for _ in range(rounds):
+            u.sample(len(u.points) + 1)
+    finally:
+        for b in u.bounds:
+            if 'sample' in b.__dict__:
+                del b.__dict__['sample']
+    k = len(u.bounds)
+    lvm = np.array([float(b.log_v) for b in u.bounds])
+    vrel = np.exp(lvm - logsumexp(lvm))
+    return dict(kind='alloc', vrelm=[int(round(x * 1000)) for x in vrel],
+                counts=[reqs[i:i + k] for i in range(0, len(reqs) - len(reqs) % k, k)], n_members=k)
+
+
 def nautilus_round(b):
     """One serial iteration of NautilusBound.sample."""
     outer = b.outer_bound
@@ -201,6 +224,7 @@ def _job(spec):
             u2 = Union.read(g, rng=bo.clone_rng(u.rng))
             f.close()
             recs.append(union_round(u2))
+        recs.append(alloc_record(u))
         for b in u.bounds:
             e = b if isinstance(b, Ellipsoid) else b.ellipsoid
             if e is not None:
@@ -212,6 +236,7 @@ def _job(spec):
         for r in range(spec.get('rounds', 3)):
             recs.append(nautilus_round(b))
             recs.append(union_round(b.outer_bound))
+        recs.append(alloc_record(b.outer_bound))
         if spec.get('pool'):
             from nautilus.pool import NautilusPool
             pool = NautilusPool(spec['pool'])
